@@ -86,3 +86,19 @@ Proof.
     vm_compute. reflexivity.
   - reflexivity.
 Qed.
+
+(* ---- tie to the source: decodeDrawing's switch on the high nibble, regenerated from decode/decode.go by the
+   translator (coq/gen/Tables.v, decDrawNibbles), agrees with the model's draw_group on all 224 drawing opcodes
+   below 0xe0: operation, coordinates per repetition, repetition count 1 + (opcode & mask) ---- *)
+From IVG Require Import Tables.
+
+Definition nibble_ok (e : Z * (Z * Z * Z)) : bool :=
+  let '(n, (verb, nco, mask)) := e in
+  forallb (fun lo => let opc := n * 16 + lo in
+     let '(op, k, nreps) := draw_group opc in
+     (op =? verb) && (Z.of_nat k =? nco) && (nreps =? 1 + Z.land opc mask)) (zrange 0 16).
+
+Theorem decoder_draw_table_is_current :
+  map fst decDrawNibbles = zrange 0 14 /\ forallb nibble_ok decDrawNibbles = true.
+Proof. split; vm_compute; reflexivity. Qed.
+Print Assumptions decoder_draw_table_is_current.
